@@ -57,6 +57,13 @@ def build(kind):
     if kind == 'Plain':
         m = xl.compile_wb({'A1': 5, 'B1': '=A1+1', 'C1': '=B1+1'})
         return m, lambda: m.evaluate('S!C1')
+    if kind in ('RefA', 'RefB'):   # library functions which receive references
+        b = 1 if kind == 'RefA' else 10
+        m = xl.compile_wb({'A1': b, 'A2': 2 * b, 'A3': 3 * b,
+                           'C1': '=ROUND(OFFSET(A1,2,0),0)+1',
+                           'C2': '=INDEX(OFFSET(A1,0,0,3,1),2)+SUM(INDIRECT("A1:A2"))',
+                           'C3': '=MATCH(A2,OFFSET(A1,0,0,3,1),0)*A3'})
+        return m, lambda: m.evaluate(['S!C1', 'S!C2', 'S!C3'])
     if kind == 'SetEval':    # set_value then evaluate on an iterative model
         m = xl.compile_wb({'A1': 1, 'B1': '=A1+1', 'C1': '=SUM(A1:B1)'}, cycles=cy)
         m.evaluate('S!C1')
@@ -108,6 +115,22 @@ def solo(kind, warm=False):
     t.start()
     t.join()
     return out
+
+
+def fresh_run(kind):
+    """one workload as the first pycel action of a new thread, unobserved (the
+    event sink reads the per-thread singletons, which would initialise them)"""
+    box = {}
+
+    def body():
+        try:
+            box['r'] = build(kind)[1]()
+        except BaseException as exc:     # noqa
+            box['r'] = f'raised {type(exc).__name__}: {exc}'
+    t = threading.Thread(target=body)
+    t.start()
+    t.join()
+    return box['r']
 
 
 def pair_job(arg):
@@ -196,6 +219,78 @@ def pair_job(arg):
             break
     out['violations'] = out['violations'][:4]
     return out
+
+
+def fine_job(arg):
+    """preemption at every call of a pycel function (finer than the cell
+    evaluations): one workload runs to completion inside the j-th call of the other"""
+    k1, k2, limit, seed = arg
+    rnd = random.Random(seed)
+    want = {1: solo(k1)['result'], 2: solo(k2)['result']}
+    kinds = {1: k1, 2: k2}
+    out = dict(pair=(k1, k2), warm='calls', schedules=0, switches=0, violations=[],
+               points=None, sample=None)
+
+    def execute(first, j):
+        other = 3 - first
+        state = dict(phase=0)
+
+        def decide(tid, own, glob):
+            if state['phase'] == 0 and tid == first and own >= j:
+                state['phase'] = 1
+                return other
+            return tid
+
+        def w(tid, kind):
+            m, go = build(kind)
+            sched.CURRENT['baton'].armed.add(tid)
+            return go()
+        try:
+            return sched.run_pair(lambda t: w(1, k1), lambda t: w(2, k2), decide,
+                                  lambda *a: None, first=first, call_points=True)
+        except sched.Deadlock as exc:
+            raise tlc.MachineryFailure(f'scheduler deadlock {k1}/{k2} calls {first, j}: {exc}')
+
+    # how many call points each workload has when it runs alone
+    n = {}
+    for first in (1, 2):
+        res, baton = execute(first, 10 ** 9)
+        n[first] = baton.points[first]
+    out['points'] = (n[1], n[2])
+    if min(n.values()) < 20:
+        raise tlc.MachineryFailure(f'vacuous: {n} call points in {k1}/{k2}')
+    for first in (1, 2):
+        js = list(range(1, n[first] + 1))
+        if len(js) > limit:
+            js = sorted(rnd.sample(js, limit))
+        for j in js:
+            res, baton = execute(first, j)
+            out['schedules'] += 1
+            out['switches'] += baton.switches
+            case = dict(workloads=[k1, k2], schedule=['call', first, j])
+            for tid in (1, 2):
+                st, val = res[tid]
+                if st != 'ok':
+                    out['violations'].append((
+                        f'{kinds[tid]} raised {val} when {kinds[3 - tid]} '
+                        f'{"ran inside its" if tid == first else "was suspended at its"} '
+                        f'call {j} of {n[first]} pycel function calls', case))
+                elif not xl.same_value(val, want[tid]) and val != want[tid]:
+                    out['violations'].append((
+                        f'{kinds[tid]} returned {val!r} when {kinds[first]} was suspended at call '
+                        f'{j} of its {n[first]} pycel function calls while {kinds[3 - first]} ran to '
+                        f'completion; alone it returns {want[tid]!r}', case))
+            if out['sample'] is None:
+                out['sample'] = dict(workloads=[k1, k2], schedule=['call', first, j],
+                                     results={t: repr(r) for t, r in res.items()})
+            if len(out['violations']) > 4:
+                break
+    out['violations'] = out['violations'][:4]
+    return out
+
+
+def any_job(arg):
+    return fine_job(arg[1:]) if arg[0] == 'fine' else pair_job(arg)
 
 
 def fresh_thread_ops():
@@ -295,7 +390,7 @@ def run(tier, seed):
         if not ok:
             v.note(f'spec-drift: solo {kind} on the code gives {got!r}, Threads.tla Solo = {want}')
     # ---- binding (b): schedules on real threads ------------------------------
-    kinds = ['IterA', 'IterB', 'Iter2', 'ArrA', 'ArrB', 'ArrIter', 'Plain', 'SetEval']
+    kinds = ['IterA', 'IterB', 'Iter2', 'ArrA', 'ArrB', 'ArrIter', 'Plain', 'SetEval', 'RefA']
     if tier == 'quick':
         pairs = [('IterA', 'IterB'), ('IterA', 'ArrB'), ('ArrA', 'ArrB'), ('Iter2', 'ArrIter'),
                  ('IterB', 'Plain'), ('ArrA', 'Plain'), ('Iter2', 'SetEval'), ('ArrIter', 'IterA')]
@@ -303,7 +398,16 @@ def run(tier, seed):
                                                             ('ArrB', 'IterB', True, seed)]
     else:
         jobs = [(a, b, w, seed) for a, b in itertools.product(kinds, kinds) for w in (False, True)]
-    for r in parallel.run_jobs(pair_job, jobs):
+    if tier == 'quick':
+        jobs += [('fine', 'RefA', 'RefB', 200, seed + i) for i in range(3)] + [
+                 ('fine', 'ArrA', 'ArrB', 60, seed),
+                 ('fine', 'IterA', 'ArrIter', 60, seed)]
+    else:
+        fk = ['RefA', 'RefB', 'ArrA', 'ArrIter', 'IterA', 'Plain']
+        jobs += [('fine', a, b, 10 ** 6 if 'Ref' in a + b else 400, seed)
+                 for a, b in itertools.combinations_with_replacement(fk, 2)
+                 if (a, b) != ('RefB', 'RefB')]
+    for r in parallel.run_jobs(any_job, jobs):
         v.evaluations += r['schedules']
         v.distinct.update((r['pair'], r['warm'], i) for i in range(r['schedules']))
         v.traces += r['schedules']
@@ -317,6 +421,18 @@ def run(tier, seed):
             v.sample(r['sample'], limit=3)
     # ---- (c) first action of a new thread -----------------------------------
     viol, count = fresh_thread_ops()
+    # every workload as the very first pycel action of a new thread: the result
+    # is what a thread which has used the library before gets
+    for kind in kinds:
+        build('Plain')[1]()
+        build('ArrB')[1]()
+        used = build(kind)[1]()
+        fresh = fresh_run(kind)
+        count += 1
+        if not (xl.same_value(fresh, used) or fresh == used):
+            viol.append((f'workload {kind} as the first pycel action of a new thread returned '
+                         f'{fresh!r}; on a thread which has evaluated formulas before it '
+                         f'returns {used!r}', dict(workload=kind)))
     v.evaluations += count
     v.extra['fresh_thread_operations'] = count
     for desc, case in viol:
